@@ -258,8 +258,9 @@ class AutoSerialize:
             path += ".zip"
 
         # Handle overwrite vs. write protection.  An existing target is only removed once
-        # the new data has been written completely (see _install below).
-        if os.path.exists(path) and mode != "o":
+        # the new data has been written completely (see _install below).  lexists: a dangling
+        # symbolic link at the target is an existing path too (exists() follows the link).
+        if os.path.lexists(path) and mode != "o":
             raise FileExistsError(f"File '{path}' already exists. Use mode='o' to overwrite.")
 
         # Directory mode requires no extension
